@@ -1,5 +1,6 @@
 """C08 - sense data is always decodable and printable, with the right key/ASC/ASCQ."""
 import contextlib
+import copy
 import io
 import random
 import re
@@ -38,6 +39,10 @@ def probe(K, b, texts, keynames, keep=None, obj=None):
     try:
         s = str(x)
         e["strok"] = True
+        # an error that was caught is handed on (copy.copy / copy.deepcopy re-construct it): it still prints the same
+        if str(copy.copy(x)) != s or str(copy.deepcopy(x)) != s:
+            e["strok"] = False
+            e["error"] = "a copy of the error prints differently"
         n = norm(s)
         fixed = (b[0] & 0x7F) in (0x70, 0x71)
         if (b[0] & 0x7F) in (0x70, 0x71, 0x72, 0x73):
@@ -60,8 +65,10 @@ def probe(K, b, texts, keynames, keep=None, obj=None):
 def run(chk, replay=None):
     ev = chk.ev
     ev.assumptions += [
-        "ASC/ASCQ wording is judged on a curated table of 97 T10 assignments (T10Sense.tla); every other code point "
-        "is checked for totality and for reporting the right numbers only",
+        "ASC/ASCQ wording is judged on 98 assignments written from memory (T10Sense!CuratedTexts) and on the 707 "
+        "assignments of T10SenseTable.tla (transcribed once from the pinned tree's table and read line by line; TLC "
+        "checks that the two agree where they overlap); every other code point is checked for totality and for "
+        "reporting the right numbers only",
         "bytes the target did not send (short buffers) read as zero",
         "texts are compared after normalisation (upper case, letters and digits only)",
     ]
